@@ -98,6 +98,22 @@ pub fn check_osc(c: &OscCase, st: &mut Stats) -> CheckResult {
     // exact regime with steps far below 2^-64 (subnormal): the phase is the plain f64 sum of the steps, which is exact
     let subnormal_regime = c.exact && steps.iter().all(|s| *s < 2f64.powi(-1040)) && steps.iter().any(|s| *s > 0.0) && c.frames <= 4096;
     let mut sub_acc = 0.0f64;
+    if !varying {
+        // a Phase that has already run for j frames, turned into an oscillator through the method form, carries on from there
+        for j in [1u64, 3] {
+            let mut p = r.const_hz(hz[0]).phase();
+            for _ in 0..j {
+                let _ = p.next();
+            }
+            let (mut s, mut w, mut q) = (p.clone().sine(), p.clone().saw(), p.clone().square());
+            let ph = p.next();
+            let pi = std::f64::consts::PI;
+            let (sv, wv, qv) = (s.next(), w.next(), q.next());
+            ensure!((sv - 2.0 * (pi * ph).sin() * (pi * ph).cos()).abs() <= 1e-12, "Phase advanced {} frames then .sine(): first output {} is not sin(2 pi {})", j, sv, ph);
+            ensure!((wv - (1.0 - 2.0 * ph)).abs() <= 4.0 * f64::EPSILON, "Phase advanced {} frames then .saw(): first output {} is not 1 - 2 x {}", j, wv, ph);
+            ensure!(qv == if ph < 0.5 { 1.0 } else { -1.0 }, "Phase advanced {} frames then .square(): first output {} at phase {}", j, qv, ph);
+        }
+    }
     let mut acc: i128 = 0; // exact sum of steps, modulo 2^64 (i.e. modulo 1.0), in 2^-64 units
     let mut inexact_steps = 0u64;
     // accumulated rounding allowance: each `(phase + step) % 1.0` rounds once, by at most half an ulp of phase + step
@@ -178,6 +194,7 @@ pub fn check_osc(c: &OscCase, st: &mut Stats) -> CheckResult {
     st.class_if(tiny_step, "step below 2^-52 (but not zero)");
     st.class_if(subnormal_regime, "subnormal steps (exact)");
     st.class_if(rate < 1.0, "rate below 1");
+    st.class_if(c.exact && rate.log2().fract() != 0.0, "exact regime at a rate that is not a power of two");
     st.class_if(hz_len.map_or(false, |l| l < c.frames), "frequency signal exhausted during the run");
     Ok(())
 }
@@ -241,7 +258,13 @@ pub fn check_noise(c: &NoiseCase, st: &mut Stats) -> CheckResult {
 
 fn rate_strategy(exact: bool) -> BoxedStrategy<f64> {
     if exact {
-        (-4i32..=20).prop_map(|k| 2f64.powi(k)).boxed()
+        // hz = step x rate is exact for every one of these rates (steps are k/2^m), and so is hz / rate = step
+        prop_oneof![
+            3 => (-4i32..=20).prop_map(|k| 2f64.powi(k)),
+            2 => proptest::sample::select(vec![3.0, 7.0, 49.0, 98.0, 441.0, 44100.0, 48000.0, 12544.0, 6.125, 22050.0, 96000.0]),
+            1 => (1u32..200_000).prop_map(|r| r as f64),
+        ]
+        .boxed()
     } else {
         prop_oneof![
             3 => proptest::sample::select(vec![44100.0, 48000.0, 1.0, 1e-3, 1e9, 96000.0, 8000.0, 22050.0]),
@@ -288,6 +311,9 @@ pub fn osc_strategy(max_frames: u64) -> impl Strategy<Value = OscCase> {
         };
         (rate_strategy(exact), proptest::collection::vec(step, 1..6), 1u64..max_frames, any::<bool>(), prop_oneof![2 => Just(None), 1 => (0u64..200).prop_map(Some)]).prop_map(move |(rate, steps, frames, constant, hz_len)| {
             let rate = if exact && tiny == 1 { rate.max(1.0) } else { rate };
+            // exact regime at a rate that is not a power of two: hz = step x rate must itself be exact, so the steps are kept
+            // to 30 significant bits (at most 2^10 with 20 fractional bits)
+            let steps: Vec<f64> = if exact && tiny >= 2 && rate.log2().fract() != 0.0 { steps.iter().map(|s| ((s % 1024.0) * 1048576.0).floor() / 1048576.0).collect() } else { steps };
             let mut hz: Vec<f64> = steps.iter().map(|s| s * rate).collect();
             // exact regime: step * rate must itself be exact and divide back exactly (power-of-two rate: yes)
             if constant {
@@ -305,12 +331,12 @@ pub fn osc_strategy(max_frames: u64) -> impl Strategy<Value = OscCase> {
 pub fn run(ctx: &mut Ctx) {
     ctx.set_rule(
         "oscillators: (rate, frequency sequence (one value = ConstHz path, several = per-frame Hz path), number of frames, exact flag); rates from powers of two, 44100, 48000, 1, 1e-3, 1e9 and random; \
-         frequencies as steps hz/rate in [0, 1e30] (beyond 2^63) incl. 0, >= rate, tiny (down to 1e-19, below 2^-52); exact regime = power-of-two rate (2^-4 .. 2^20) and dyadic steps, one case in five with every step k x 2^-64 and one in five with subnormal steps k x 2^-1074 (the phase is then the exact f64 sum); runs up to 2000 frames plus long runs; noise: seeds 0, 1, 2^32, 2^63, u64::MAX - k and random; \
+         frequencies as steps hz/rate in [0, 1e30] (beyond 2^63) incl. 0, >= rate, tiny (down to 1e-19, below 2^-52); exact regime = dyadic steps at a power-of-two rate (2^-4 .. 2^20) or at integer rates such as 49, 441, 44100, 48000 (hz = step x rate and hz / rate are then exact as well), one case in five with every step k x 2^-64 and one in five with subnormal steps k x 2^-1074 (the phase is then the exact f64 sum); runs up to 2000 frames plus long runs; noise: seeds 0, 1, 2^32, 2^63, u64::MAX - k and random; \
          non-trivial: step >= 1, varying frequency, run > 1e5 frames (oscillators); boundary seed (noise)",
     );
     ctx.assume("the phase used by an oscillator is observed through an identically driven Phase signal (same code, same frequency sequence); exact regime: phase_n == frac(sum of steps) exactly; general: circular distance <= sum over the frames so far of 2^-52 x (phase + step), i.e. one ulp of each addition");
     ctx.assume("sine compared with 2 sin(pi p) cos(pi p) within 1e-12, saw with 1-2p within 4 ulp, square exactly; how the noise counter behaves past u64::MAX is not asserted, only that every frame is produced, in range and reproducible");
-    for c in ["step >= 1 (frequency at or above the rate)", "varying frequency", "run longer than 1e5 frames", "exact regime", "seed within a run length of u64::MAX", "frequency signal exhausted during the run", "step below 2^-52 (but not zero)", "rate below 1", "subnormal steps (exact)"] {
+    for c in ["step >= 1 (frequency at or above the rate)", "varying frequency", "run longer than 1e5 frames", "exact regime", "seed within a run length of u64::MAX", "frequency signal exhausted during the run", "step below 2^-52 (but not zero)", "rate below 1", "subnormal steps (exact)", "exact regime at a rate that is not a power of two"] {
         ctx.require_class(c);
     }
     ctx.prop("oscillators/random", ctx.pick(20_000, 100_000), osc_strategy(2000), check_osc);
